@@ -5,7 +5,7 @@ PROP = dict(
             dict(name="e1", pkg=".", test="TestVerifC15", files=["mc/c15/*.go"]),
             dict(name="e3", pkg=".", test="TestVerifC15E3", files=["mc/c15/e3/*.go"], parts=["e3-interleavings"],
                  libs=["explore", "canon", "sched"]),
-            dict(name="e3lp", pkg=".", test="TestVerifC15E3LP", files=["mc/c15/e3/*.go", "mc/c15/e3/lp/*.go"], parts=["e3-lockpoints"],
+            dict(name="e3lp", pkg=".", test="TestVerifC15E3LP", files=["mc/c15/e3/*.go", "mc/c15/e3/lp/*.go"], parts=["e3-lockpoints", "e3-lock-unlock-points"],
                  libs=["explore", "canon", "sched", "vsync"],
                  rewrite={f: [('"sync"', 'sync "github.com/refraction-networking/uquic/internal/verifmc/vsync"')]
                           for f in ("streams_map.go", "streams_map_incoming.go", "streams_map_outgoing.go")}),
